@@ -112,6 +112,49 @@ def forcing_update_is_library_curl(ctx, dim, shape):
 
 
 @scenario
+def forcing_update_called_again_with_another_field(ctx, dim, shape):
+    """call history on ONE generated kernel object: the forcing passed in the second call is a different buffer, handed
+    over (as the simulators do) through a temporary wrapper object - which may reuse the identity of the first call's dead
+    wrapper.  The second update must use the second forcing."""
+    from checks.common import view_with_identity_of
+
+    _, spne, _, _ = sopht_modules()
+    shape = tuple(shape)
+    p = ctx.scalar("prefactor")
+    gen_u = getattr(spne, f"gen_update_vorticity_from_velocity_forcing_pyst_kernel_{dim}d")
+    gen_p = getattr(spne, f"gen_update_vorticity_from_penalised_velocity_pyst_kernel_{dim}d")
+    ws, vs = (shape, (2, *shape)) if dim == 2 else ((3, *shape), (3, *shape))
+    fa, fb = ctx.array("fa", vs), ctx.array("fb", vs)
+    reused = []
+    for name, gen in (("forcing", gen_u), ("penalised", gen_p)):
+        k = gen(real_t=ctx.real_t, num_threads=False)
+        fresh_k = gen(real_t=ctx.real_t, num_threads=False)
+        w = ctx.array("w", ws)
+        u = ctx.array("u", vs)
+        w_ref = w.copy()
+
+        def call(kern, wf, forcing):
+            if name == "forcing":
+                kern(vorticity_field=wf, velocity_forcing_field=forcing, prefactor=ctx.cast(p))
+            else:
+                kern(vorticity_field=wf, penalised_velocity_field=forcing, velocity_field=u, prefactor=ctx.cast(p))
+
+        v = fa.view()
+        dead = id(v)
+        call(k, w, v)
+        del v
+        v2, ok = view_with_identity_of(dead, fb)
+        reused.append(ok)
+        call(k, w, v2)
+        del v2
+        # reference: a kernel object without history, the two forcings passed as the long-lived arrays themselves
+        call(fresh_k, w_ref, fa)
+        call(fresh_k, w_ref, fb)
+        ctx.eq_array(f"{name}:second_call_uses_the_forcing_passed_in_the_second_call", w, w_ref)
+    ctx.note(f"identity of the dead first wrapper reused by the second: {reused}")
+
+
+@scenario
 def divergence_monitor(ctx, shape):
     """get_vorticity_divergence_l2_norm() = dx^(3/2) * || div_h(vorticity) ||_2"""
     _, spne, sps, _ = sopht_modules()
@@ -171,7 +214,9 @@ def main():
             chk.add(stream_function_velocity_2d, real_t=rt, shape=sh)
             chk.add(forcing_update_is_library_curl, real_t=rt, dim=2, shape=sh)
         chk.add(divergence_monitor, real_t=rt, shape=(4, 3, 5))
-    chk.bounds = [f"3D grids {s3}, 2D grids {s2}, divergence monitor on (4,3,5)", f"precisions {precisions}", "all cell values and prefactors symbolic"]
+        chk.add(forcing_update_called_again_with_another_field, real_t=rt, dim=2, shape=s2[0])
+        chk.add(forcing_update_called_again_with_another_field, real_t=rt, dim=3, shape=s3[0])
+    chk.bounds = [f"3D grids {s3}, 2D grids {s2}, divergence monitor on (4,3,5)", f"precisions {precisions}", "all cell values and prefactors symbolic", "call history: two calls of one kernel object with different forcing buffers passed through temporary wrappers (identity reuse forced where CPython allows)"]
     chk.outside = ["larger grids (the identities are per-cell stencil compositions: every interior stencil-of-stencils pattern occurs on these grids)", "rounding"]
     chk.assumptions = ["exact real arithmetic", "sqrt in the divergence monitor: s >= 0 and s^2 = radicand"]
     chk.run()
